@@ -38,9 +38,13 @@ impl Prop for C03 {
         }
     }
     fn rule(&self) -> &'static str {
-        "one run = one generated program executed by the real processor against the honest simulated host; every main transition constraint is evaluated on every non-exempt row, every boundary assertion is checked, the auxiliary segment is built under seeded challenges and its transition constraints and assertions are checked, the trace-length law is recomputed, and the execution is repeated under a second expected-cycles hint (main segments must be identical). Non-trivial = execution succeeded (all checks ran); distinct = digest of (source, inputs, advice, knobs, challenges)."
+        "one run = one generated program (G_all swarm; 1 run in 12: standard-library procedures - SHA-256, BLAKE3, Keccak, u64, u256, memcopy - on random operands) executed by the real processor against the honest simulated host; every main transition constraint is evaluated on every non-exempt row, every boundary assertion is checked, the auxiliary segment is built under seeded challenges and its transition constraints and assertions are checked, the trace-length law is recomputed, and the execution is repeated under a second expected-cycles hint (main segments must be identical). Non-trivial = execution succeeded (all checks ran); distinct = digest of (source, inputs, advice, knobs, challenges)."
     }
     fn generate(&self, rng: &mut Rng, _tier: Tier, _index: u64) -> Value {
+        if rng.chance(1, 12) {
+            // standard-library procedures on random operands
+            return pop::stdlib_scenario(rng);
+        }
         pop::swarm_scenario(rng)
     }
     fn execute(&self, sc: &Value) -> RunOut {
